@@ -129,8 +129,227 @@ def ms_add_variables():
     nlp.prove_equal("sampling_method:SamplingMethod.add_variables_V:ensures:horizon", ca.vertcat(meth.T, meth.t0), ca.vertcat(ca.MX(T), ca.MX(t0)))
 
 
+def dc_add_variables(M=2, degree=2):
+    """DirectCollocation.add_variables for a SYMBOLIC number N of control intervals (M, degree concrete): establishes
+    what the DirectCollocation.add_constraints contract (C02, contracts/unbounded.py:PreDC) assumes about the method
+    object -- node states, controls, per-step start states and collocation states are each the declared scale times
+    their OWN fresh solver variable (one family of variables per creation site of the loop body), list sizes, and the
+    bookkeeping lists used by set_initial."""
+    from rockit import Ocp, DirectCollocation
+    from rockit.direct_method import OptiWrapper
+    import rockit.sampling_method as sm, rockit.direct_collocation as dcm, rockit.stage as st
+    loops.install_builtins(sm, dcm, st)
+    contract.setup_loops()
+    c = ctx()
+    N = fresh_int("N")
+    c.assume((N >= 1).z)
+    T, t0 = unknown("horizon_T", positive=True), unknown("horizon_t0")
+    ocp = Ocp(T=T, t0=t0)
+    nx = 2
+    sx, su = unknown("scale_x", nx, 1, positive=True), unknown("scale_u", 1, 1, positive=True)
+    svc, svcp = unknown("scale_vc", 1, 1, positive=True), unknown("scale_vcp", 1, 1, positive=True)
+    x_ = ocp.state(nx, scale=sx)
+    u_ = ocp.control(scale=su)
+    vc = ocp.variable(grid="control", scale=svc)
+    vcp = ocp.variable(grid="control", include_last=True, scale=svcp)
+    meth = DirectCollocation(N=N, M=M, degree=degree)
+    ocp._method = meth
+    opti = OptiWrapper(ocp)
+    meth.opti = opti
+    meth.xi = None
+    contract.use_opti(opti)
+    QUAL = "direct_collocation:DirectCollocation.add_variables"
+    TAG = QUAL + ":loop0"
+    sxm = ca.MX(sx)
+    sxd = ca.repmat(sxm, 1, degree)
+    # creation sites of one iteration, in program order
+    site = 0
+    fU = opti.loop_family(TAG, site, 1); site += 1
+    fXc, fXs = [], [None]
+    for i in range(M):
+        fXc.append(opti.loop_family(TAG, site, nx * degree)); site += 1
+        if i > 0:
+            fXs.append(opti.loop_family(TAG, site, nx)); site += 1
+    fXn = opti.loop_family(TAG, site, nx); site += 1
+    fVc = opti.loop_family(TAG, site, 1); site += 1
+    fVcp = opti.loop_family(TAG, site, 1); site += 1
+    holder = {}
+
+    def Xj(j):
+        j = unwrap_int(j)
+        if (isinstance(j, int) and j == 0) or (not isinstance(j, int) and bool(j == 0)):
+            return holder["X0"]
+        return sxm * fXn(unwrap_int(j - 1))
+
+    def xc(j, i):
+        return sxd * ca.reshape(fXc[i](j), nx, degree)
+
+    def x0(j, i):
+        return Xj(j) if i == 0 else sxm * fXs[i](j)
+
+    def split(idx):
+        idx = unwrap_int(idx)
+        j, i = unwrap_int(idx // M), unwrap_int(idx % M)
+        for ii in range(M):
+            if i == ii:
+                return j, ii
+        raise AssertionError
+
+    Z0 = lambda cols: ca.MX(0, cols)
+
+    def state(k, env):
+        if "X0" not in holder:
+            holder["X0"] = env["self"].X[0]
+        kM = unwrap_int(k * M)
+        st = {
+            "x": Xj(k), "z": ca.MX(0, 1),
+            "self.X": SymList(unwrap_int(k + 1), Xj, "X"),
+            "self.U": SymList(k, lambda j: ca.MX(su) * fU(j), "U"),
+            "self.Q": SymList(unwrap_int(k + 1), lambda j: ca.DM.zeros(0) if j == 0 else None, "Q"),
+            "self.Xc": SymList(k, lambda j: [ca.horzcat(x0(j, i), xc(j, i)) for i in range(M)], "Xc"),
+            "self.xr": SymList(k, lambda j: [xc(j, i) for i in range(M)], "xr"),
+            "self.Zc": SymList(k, lambda j: [Z0(degree) for i in range(M)], "Zc"),
+            "self.zr": SymList(k, lambda j: [Z0(degree) for i in range(M)], "zr"),
+            "self.X_intg": SymList(kM, lambda idx: x0(*split(idx)), "X_intg"),
+            "self.Xc_pure": SymList(kM, lambda idx: xc(*split(idx)), "Xc_pure"),
+            "self.Xc_vars": SymList(kM, lambda idx: (lambda j, i: xc(j, i) if i == 0 else ca.horzcat(x0(j, i), xc(j, i)))(*split(idx)), "Xc_vars"),
+            "self.Xc_vars0": SymList(kM, lambda idx: (lambda j, i: ca.repmat(Xj(j), 1, degree if i == 0 else degree + 1))(*split(idx)), "Xc_vars0"),
+            "self.Zc_vars_rest": SymList(kM, lambda idx: (lambda j, i: Z0(degree - 1) if i == 0 else Z0(degree))(*split(idx)), "Zc_vars_rest"),
+            "self.Zc0": SymList(kM, lambda idx: (lambda j, i: Z0(degree - 1) if i == 0 else Z0(degree))(*split(idx)), "Zc0"),
+            "self.Zc_vars_base": SymList(unwrap_int(k + 1), lambda j: ca.MX(0, 1), "Zc_vars_base"),
+            "self.t0_local": SymList(unwrap_int(N + 1), lambda j: None, "t0_local"),
+            "self.T_local": SymList(N, lambda j: None, "T_local"),
+        }
+        kk = unwrap_int(k)
+        first = (kk == 0) if isinstance(kk, int) else bool(kk == 0)
+        if first:
+            st["self.V_control"], st["self.V_control_plus"] = [], []
+        else:
+            st["self.V_control"] = [SymList(k, lambda j: ca.MX(svc) * fVc(j), "V_control")]
+            st["self.V_control_plus"] = [SymList(k, lambda j: ca.MX(svcp) * fVcp(j), "V_control_plus")]
+        return st
+
+    loops.SPECS.clear()
+    loops.SPECS[(QUAL, 0)] = loops.LoopSpec(state=state)
+    with loops.patched(DirectCollocation, "add_variables", QUAL):
+        meth.add_variables(ocp, opti)
+    c.prove(QUAL + ":ensures:N+1-node-states", vc_len(meth.X) == N + 1)
+    c.prove(QUAL + ":ensures:N-controls", vc_len(meth.U) == N)
+    c.prove(QUAL + ":ensures:N-intervals-of-helper-states", vc_len(meth.Xc) == N)
+    c.prove(QUAL + ":ensures:N-intervals-of-algebraic-helpers", vc_len(meth.Zc) == N)
+    c.prove(QUAL + ":ensures:include_last-variable-has-N+1-members", len(meth.V_control_plus) == 1 and vc_len(meth.V_control_plus[0]) == N + 1)
+    c.prove(QUAL + ":ensures:per-interval-variable-has-N-members", len(meth.V_control) == 1 and vc_len(meth.V_control[0]) == N)
+    j = fresh_int("j")
+    c.assume((j >= 0).z)
+    c.assume((j < N).z)
+
+    def post():
+        nlp.prove_equal(QUAL + ":ensures:node-state-is-own-scale-times-fresh-variable", meth.X[unwrap_int(j + 1)], sxm * fXn(j))
+        nlp.prove_equal(QUAL + ":ensures:control-is-own-scale-times-fresh-variable", meth.U[j], ca.MX(su) * fU(j))
+        Xc = meth.Xc[j]
+        c.prove(QUAL + ":ensures:M-steps-per-interval", len(Xc) == M)
+        for i in range(M):
+            nlp.prove_equal(QUAL + ":ensures:step-%d-helper-states-are-own-scale-times-fresh-variables" % i, Xc[i][:, 1:], xc(j, i))
+            nlp.prove_equal(QUAL + ":ensures:step-%d-start-state-%s" % (i, "is-the-node-state" if i == 0 else "is-own-scale-times-fresh-variable"), Xc[i][:, 0], x0(j, i))
+        nlp.prove_equal(QUAL + ":ensures:per-interval-variable-is-own-scale-times-fresh-variable", meth.V_control[0][j], ca.MX(svc) * fVc(j))
+        nlp.prove_equal(QUAL + ":ensures:include_last-variable-is-own-scale-times-fresh-variable", meth.V_control_plus[0][j], ca.MX(svcp) * fVcp(j))
+    isolated(post, QUAL)
+    x0m = ca.MX(meth.X[0])
+    c.prove(QUAL + ":ensures:initial-state-is-scaled-fresh-variable", all((not ca.isnum(e)) for e in x0m.e) and x0m.shape == (nx, 1))
+
+
+def ss_add_variables():
+    """SingleShooting.add_variables for a SYMBOLIC N: only the initial state is a decision variable (own scale per state
+    symbol), later node states are placeholders filled by add_constraints; controls and per-interval variables as in
+    the other methods."""
+    from rockit import Ocp, SingleShooting
+    from rockit.direct_method import OptiWrapper
+    import rockit.sampling_method as sm, rockit.single_shooting as ssm, rockit.stage as st
+    loops.install_builtins(sm, ssm, st)
+    contract.setup_loops()
+    c = ctx()
+    N = fresh_int("N")
+    c.assume((N >= 1).z)
+    T, t0 = unknown("horizon_T", positive=True), unknown("horizon_t0")
+    ocp = Ocp(T=T, t0=t0)
+    sx1, sx2 = unknown("scale_x1", 2, 1, positive=True), unknown("scale_x2", 1, 1, positive=True)
+    su1, su2 = unknown("scale_u1", 1, 1, positive=True), unknown("scale_u2", 2, 1, positive=True)
+    svc, svcp = unknown("scale_vc", 1, 1, positive=True), unknown("scale_vcp", 1, 1, positive=True)
+    x1 = ocp.state(2, scale=sx1); x2 = ocp.state(scale=sx2)
+    u1 = ocp.control(scale=su1); u2 = ocp.control(2, scale=su2)
+    vc = ocp.variable(grid="control", scale=svc)
+    vcp = ocp.variable(grid="control", include_last=True, scale=svcp)
+    meth = SingleShooting(N=N, M=1)
+    ocp._method = meth
+    opti = OptiWrapper(ocp)
+    meth.opti = opti
+    meth.xi = None
+    contract.use_opti(opti)
+    QUAL = "single_shooting:SingleShooting.add_variables"
+    TAG = QUAL + ":loop0"
+    fU1 = opti.loop_family(TAG, 0, 1)
+    fU2 = opti.loop_family(TAG, 1, 2)
+    fVc = opti.loop_family(TAG, 2, 1)
+    fVcp = opti.loop_family(TAG, 3, 1)
+    Uj = lambda j: ca.vertcat(ca.MX(su1) * fU1(j), ca.MX(su2) * fU2(j))
+    holder = {}
+
+    def state(k, env):
+        if "X0" not in holder:
+            holder["X0"] = env["self"].X[0]
+        st = {"self.X": SymList(unwrap_int(k + 1), lambda j: holder["X0"] if j == 0 else None, "X"),
+              "self.U": SymList(k, Uj, "U"),
+              "self.Q": SymList(unwrap_int(k + 1), lambda j: ca.DM.zeros(0) if j == 0 else None, "Q"),
+              "self.t0_local": SymList(unwrap_int(N + 1), lambda j: None, "t0_local"),
+              "self.T_local": SymList(N, lambda j: None, "T_local")}
+        kk = unwrap_int(k)
+        first = (kk == 0) if isinstance(kk, int) else bool(kk == 0)
+        if first:
+            st["self.V_control"], st["self.V_control_plus"] = [], []
+        else:
+            st["self.V_control"] = [SymList(k, lambda j: ca.MX(svc) * fVc(j), "V_control")]
+            st["self.V_control_plus"] = [SymList(k, lambda j: ca.MX(svcp) * fVcp(j), "V_control_plus")]
+        return st
+
+    loops.SPECS.clear()
+    loops.SPECS[(QUAL, 0)] = loops.LoopSpec(state=state)
+    with loops.patched(SingleShooting, "add_variables", QUAL):
+        meth.add_variables(ocp, opti)
+    c.prove(QUAL + ":ensures:N+1-node-state-slots", vc_len(meth.X) == N + 1)
+    c.prove(QUAL + ":ensures:N-controls", vc_len(meth.U) == N)
+    c.prove(QUAL + ":ensures:include_last-variable-has-N+1-members", len(meth.V_control_plus) == 1 and vc_len(meth.V_control_plus[0]) == N + 1)
+    j = fresh_int("j")
+    c.assume((j >= 0).z)
+    c.assume((j < N).z)
+
+    def post():
+        nlp.prove_equal(QUAL + ":ensures:control-is-own-scale-times-fresh-variable-per-control-symbol", meth.U[j], Uj(j))
+        nlp.prove_equal(QUAL + ":ensures:per-interval-variable-is-own-scale-times-fresh-variable", meth.V_control[0][j], ca.MX(svc) * fVc(j))
+        nlp.prove_equal(QUAL + ":ensures:include_last-variable-is-own-scale-times-fresh-variable", meth.V_control_plus[0][j], ca.MX(svcp) * fVcp(j))
+        later = meth.X[unwrap_int(j + 1)]
+        (c.ok if later is None else lambda n_, **k: c.fail(n_, "node state %s is already defined" % (later,)))(QUAL + ":ensures:later-node-states-are-left-to-add_constraints", backend="z3")
+    isolated(post, QUAL)
+    X0 = ca.MX(meth.X[0])
+    names = []
+    for e in X0.e:
+        names.append([n for n in ca._consts(e) if n in ca._SYMS] if not ca.isnum(e) else [])
+    ok = X0.shape == (3, 1) and all(len(n) == 1 for n in names) and len({n[0] for n in names}) == 3
+    c.prove(QUAL + ":ensures:initial-state-entries-are-distinct-solver-variables", ok)
+    if ok:
+        nlp.prove_equal(QUAL + ":ensures:initial-state-is-own-scale-times-fresh-variable-per-state-symbol", X0,
+                        ca.vertcat(sx1, sx2) * ca.MX._raw(3, 1, [z3.Real(n[0]) for n in names]))
+
+
 def tasks(tier):
-    return [Task("C14/proof/MS.add_variables[N symbolic]", ms_add_variables, kind="proof",
+    return [Task("C14/proof/SS.add_variables[N symbolic]", ss_add_variables, kind="proof", replay=dict(harness="nlp_diff_any", families=[["C14", ["SS-"]]], parts=["scaling"], force="add_variables"),
+                 functions=["single_shooting:SingleShooting.add_variables", "sampling_method:SamplingMethod.add_variables_V", "sampling_method:SamplingMethod.add_variables_V_control", "sampling_method:SamplingMethod.add_variables_V_control_finalize"],
+                 bound=dict(N="symbolic (all N>=1)", dims="states 2+1, controls 1+2, per-interval and include_last variables", scales="symbolic positive"),
+                 note="establishes the representation invariant assumed by the SingleShooting.add_constraints contract (C01)"),
+            Task("C14/proof/DC.add_variables[N symbolic]", dc_add_variables, kind="proof", replay=dict(harness="nlp_diff_any", families=[["C14", ["DC-"]]], parts=["scaling"], force="add_variables"),
+                 functions=["direct_collocation:DirectCollocation.add_variables", "sampling_method:SamplingMethod.add_variables_V", "sampling_method:SamplingMethod.add_variables_V_control", "sampling_method:SamplingMethod.add_variables_V_control_finalize", "direct_method:OptiWrapper.variable"],
+                 bound=dict(N="symbolic (all N>=1)", M=2, degree=2, dims="state 2, one control, per-interval and include_last variables", scales="symbolic positive"),
+                 note="establishes the representation invariant assumed by the DirectCollocation.add_constraints contract (C02)"),
+            Task("C14/proof/MS.add_variables[N symbolic]", ms_add_variables, kind="proof", replay=dict(harness="nlp_diff_any", families=[["C14", ["MS-"]]], parts=["scaling"], force="add_variables"),
                  functions=["multiple_shooting:MultipleShooting.add_variables", "sampling_method:SamplingMethod.add_variables_V", "sampling_method:SamplingMethod.add_variables_V_control", "sampling_method:SamplingMethod.add_variables_V_control_finalize", "direct_method:OptiWrapper.variable"],
                  bound=dict(N="symbolic (all N>=1)", dims="states 2+1, one control, one variable of every grid kind", scales="symbolic positive"),
                  note="establishes the representation invariant assumed by the add_constraints contracts")]
